@@ -31,7 +31,7 @@ def make_specs(ctx: Ctx, n):
         target = "solve_and_simulate" if i % 2 else "simulate"
         plan = [{"op": "simulate", "target": target, "init": init, "seed": rng.randrange(10**6), "vsrc": "own", "int_init": int_init}]
         label = label + ("; integer-typed initial states" if int_init else "")
-        specs.append(mk_spec(i, m, ["c03"], plan, label=label))
+        specs.append(mk_spec(i, m, ["c03"], plan, label=label + ("; float64" if i % 5 == 4 else ""), x64=i % 5 == 4))
     return specs
 
 
